@@ -217,6 +217,12 @@ def solve_scipy(
     if scipy_constraints:
         for c in scipy_constraints:
             c_val = c["fun"](result.x)
+            if not np.isfinite(c_val):
+                # sqrt / log / ... outside their domain (NaN) or at its edge
+                # (-inf): no comparison below would flag these
+                max_violation = float("inf")
+                constraints_violated = True
+                continue
             # Scaled tolerance based on constraint magnitude
             scaled_tol = atol + rtol * max(1.0, abs(c_val))
 
